@@ -81,7 +81,7 @@ var ctxVariants = []shellCfg{
 	{Ctx: "var"}, {Ctx: "var", Opts: "ifs-odd"}, {Ctx: "var", Dir: "rich"}, {Ctx: "subst"}, {Ctx: "subst", Opts: "set-u"}, {Ctx: "herestr"},
 }
 
-// herestrOK: here-strings are a bash feature, and reading them back (read -r -d '') is
+// herestrOK: here-strings are a bash feature, and reading them back (read -r -d ”) is
 // byte-exact only under LC_ALL=C: under C.UTF-8 bash's read builtin itself loses a 0x01 byte
 // inside certain invalid multibyte sequences (reproduced with a 60-byte random word quoted by
 // hand, while `cat <<< word` delivers it intact), which would be charged to the escaper.
@@ -91,9 +91,13 @@ func herestrOK(b shellCfg) bool { return b.Shell != "dash" && b.Locale == "C" }
 // ctxCfgs crosses the context variants with shells, locales and HOMEs (herestr: bash only).
 func ctxCfgs(tildeForm bool) []shellCfg {
 	var out []shellCfg
-	for _, v := range ctxVariants {
+	for vi, v := range ctxVariants {
 		for _, b := range cfgsFor(tildeForm) {
 			if v.Ctx == "herestr" && !herestrOK(b) {
+				continue
+			}
+			// tilde form: the two standard HOMEs alternate over the variants
+			if tildeForm && b.Home != []string{homePlain, homeSpace}[vi%2] {
 				continue
 			}
 			c := v
@@ -648,7 +652,7 @@ func (e *shellEnv) selfTest() string {
 // pair must round-trip and an unescaped command substitution must be seen to create the canary.
 func (e *shellEnv) selfTestCtx() string {
 	for _, cfg := range ctxCfgs(true) {
-		if cfg.Locale != "C" || cfg.Home == homeSpace {
+		if cfg.Locale != "C" {
 			continue
 		}
 		if o, inc := e.checkBatch(cfg, []item{{esc: "'a b'", want: "a b"}, {esc: "~/'x'", want: cfg.Home + "/x"}, {esc: "''", want: ""}}); o != "" || inc {
